@@ -2,6 +2,7 @@ import Verif.Model.SortRef
 import Verif.Model.Facts
 import Verif.Proofs.SortRef
 import Verif.Proofs.GatherPerm
+import Verif.Proofs.OrderIndep
 
 /-!
 # C07 — the order-sensitive functions of Flatten are deterministic
@@ -19,7 +20,7 @@ open SortRef
 def discharged : List (String × String) := [
   ("GatherOperations:pathItem", "results collected then sorted by key (sort.Sort): gatherOperations_order_independent; NOT discharged when two derived keys are equal: known finding D10"),
   ("GatherOperations:specDoc.Operations()", "same"),
-  ("Name:an.references.allRefs", "each iteration is a membership test followed by UpdateRef at a distinct analyzer key: updates at distinct keys commute"),
+  ("Name:an.references.allRefs", "each iteration is a membership test followed by UpdateRef at a distinct analyzer key: updates at distinct keys commute (updateRef_commutes; the interleaved DeepestRef tests are not covered by a theorem)"),
   ("OpRefsByRef:oprefs", "re-indexing of a map by an injective key"),
   ("ReverseIndex:schemas", "grouping by normalised path; the Keys order of a group only feeds UpdateRef calls at distinct keys"),
   ("croak:f.Spec.references.allRefs", "logging only"),
@@ -28,17 +29,17 @@ def discharged : List (String × String) := [
   ("flattenAnonPointer:an.references.allRefs", "callers are collected, then used as a set"),
   ("importExternalReferences:groupedRefs", "keys collected then sort.Strings"),
   ("importExternalReferences:opts.flattenContext.newRefs", "sampled only: the body inserts entries while ranging"),
-  ("importNewRef:partialAnalyzer.references.allRefs", "UpdateRef at distinct keys of the imported schema"),
+  ("importNewRef:partialAnalyzer.references.allRefs", "UpdateRef at distinct keys of the imported schema (updateRef_commutes)"),
   ("namePointers:opts.Spec.references.allRefs", "collected into a map, then ordered by DepthFirst (total order, depthFirst_perm)"),
   ("namesForParam:operations", "names collected then sort.Strings in namesFromKey"),
-  ("normalizeRef:opts.Spec.references.allRefs", "UpdateRef at distinct analyzer keys"),
-  ("removeUnusedSinglePass:opts.Spec.references.schemas", "set difference (C06.singlePass_keeps_used)"),
+  ("normalizeRef:opts.Spec.references.allRefs", "UpdateRef at distinct analyzer keys: normalizeRef_order_independent"),
+  ("removeUnusedSinglePass:opts.Spec.references.schemas", "set difference (C06.singlePass_keeps_used): removalPass_order_independent"),
   ("removeUnusedSinglePass:opts.Swagger().Definitions", "set construction"),
   ("removeUnusedSinglePass:unused", "deletions of distinct keys commute"),
   ("stripOAIGen:opts.flattenContext.newRefs", "sampled only: the bodies mutate other entries"),
   ("stripOAIGenForRef:opts.flattenContext.newRefs", "sampled only"),
-  ("uniqifyName:definitions", "existential test (C03.uniqify_fresh)"),
-  ("updateRefParents:allRefs", "parents later sorted by TopmostFirst (total order, topmostFirst_perm)")]
+  ("uniqifyName:definitions", "existential test (C03.uniqify_fresh): uniqifyName_order_independent"),
+  ("updateRefParents:allRefs", "parents later sorted by TopmostFirst (total order, topmostFirst_perm): sortedParents_order_independent")]
 
 structure FactsOK (f : Facts) : Prop where
   ranges : ∀ r ∈ f.mapRanges, r ∈ discharged.map (·.1)
@@ -72,5 +73,89 @@ theorem gatherOperations_order_independent (x : Flatten.Ext) {ops ops' : List (S
     (hinj : ∀ a ∈ oprefs, ∀ b ∈ oprefs, a.key = b.key → a = b) :
     Flatten.gatherFrom x ops' = Flatten.gatherFrom x ops :=
   Proofs.GatherPerm.gatherFrom_perm x hp oprefs hm hinj
+
+/-! ## the map-range loops of the phases, loop by loop
+
+In the model a Go map is an association list and a `for … range` loop a fold over it; the list the model is
+given stands for *one* iteration order.  The theorems below say that every permutation of that list gives
+the same result.  The hypothesis `KeysApart` (the keys of the map designate different positions, also when
+decimal tokens are read as numbers) is executable (`keysApartB`); the driver evaluates it on the analyzer's
+reference index of every generated document and the evidence reports how often it held. -/
+
+open Proofs.UpdateComm Proofs.OrderIndep Replace
+
+/-- `replace.UpdateRef` at two different positions commutes: when one order succeeds, so does the other, and
+    with the same document.  Also when one position lies inside the other (a `$ref` with siblings that hold
+    `$ref`s): `UpdateRef` keeps the siblings since the repair `076e7ce`; before it, the outer update removed
+    the inner position and the statement was false (the failing bundle is scenario `remote-ref-siblings`). -/
+theorem updateRef_commutes (d : J) (k1 k2 r1 r2 : String) (d' : J)
+    (hd : PosDistinct (Replace.keyTokens k1) (Replace.keyTokens k2))
+    (h : (Replace.updateRef d k1 r1 >>= fun d1 => Replace.updateRef d1 k2 r2) = .ok d') :
+    (Replace.updateRef d k2 r2 >>= fun d2 => Replace.updateRef d2 k1 r1) = .ok d' :=
+  updateRef_comm d k1 k2 r1 r2 d' hd h
+
+/-- `normalizeRef` ranges over `opts.Spec.references.allRefs`: every iteration order yields the same document -/
+theorem normalizeRef_order_independent (x : Flatten.Ext) (o : Flatten.Opts) {refs refs' : List (String × String)}
+    (hp : refs.Perm refs') (hk : keysApartB refs = true) (d d' : J)
+    (h : normalizeFold x o refs d = .ok d') : normalizeFold x o refs' d = .ok d' :=
+  normalizeFold_perm x o hp (keysApartB_sound refs hk) d d' h
+
+/-- … and `Flatten.normalizeRef` is that loop over the analyzer's `allRefs` followed by `reload()` -/
+theorem normalizeRef_is_the_loop (fc : Facts) (x : Flatten.Ext) (o : Flatten.Opts) (s : Flatten.St) :
+    Flatten.normalizeRef fc x o s = (do
+      let d ← normalizeFold x o (Flatten.allRefs s.idx) s.doc
+      pure (if ((Flatten.allRefs s.idx).filter fun kv => Str.hasPrefix (o.basePath ++ "#/definitions") kv.2).isEmpty
+            then s else Flatten.reload fc { s with doc := d })) :=
+  normalizeRef_eq fc x o s
+
+/-- `importKnownRef` (and the document part of `importNewRef`) re-targets the keys of one group of the reverse
+    index, which `ReverseIndex` collected in map order: every order yields the same document -/
+theorem reref_order_independent (ref : String) {keys keys' : List String} (hp : keys.Perm keys')
+    (hk : keysApartB (keys.map fun k => (k, "")) = true) (d d' : J)
+    (h : rerefFold ref keys d = .ok d') : rerefFold ref keys' d = .ok d' := by
+  refine rerefFold_perm ref hp ?_ d d' h
+  have := keysApartB_sound _ hk
+  exact (List.pairwise_map.1 this : keys.Pairwise fun a b => KeysApart (a, "") (b, ""))
+
+/-- `uniqifyName` ranges over the definitions for its case-insensitive membership test: the order is irrelevant -/
+theorem uniqifyName_order_independent (f : Facts) (x : Names.Ext) {defs defs' : List String} (hp : defs.Perm defs')
+    (name : String) (fuel : Nat) :
+    Names.uniqifyName f x defs name fuel = Names.uniqifyName f x defs' name fuel :=
+  uniqifyName_perm f x hp name fuel
+
+/-- `removeUnusedSinglePass` ranges over `references.schemas` to collect the used names: the pass depends on
+    them as a set only (order and multiplicity of the schema references are irrelevant) -/
+theorem removalPass_order_independent (f : Facts) (x : RemoveUnused.Ext) (d : J) {used' : List String}
+    (h : ∀ n, n ∈ RemoveUnused.usedNames f x d ↔ n ∈ used') :
+    RemoveUnused.singlePass f x d = singlePassWith used' d := by
+  rw [singlePass_eq]; exact singlePassWith_congr h d
+
+/-- `updateRefParents` ranges over `allRefs` and appends the keys it has not seen; `stripOAIGenForRef` then
+    sorts them with `TopmostFirst`: the sorted parents do not depend on the iteration order -/
+theorem sortedParents_order_independent {refs refs' : List (String × String)} (hp : refs.Perm refs')
+    (r : Flatten.NewRef) :
+    SortRef.topmostFirst (Flatten.updateRefParents refs r).parents =
+      SortRef.topmostFirst (Flatten.updateRefParents refs' r).parents :=
+  sortedParents_perm hp r
+
+/-! non-vacuity: two keys one of which lies inside the other are apart, and the two orders of updating a `$ref`
+    with a `$ref`-holding sibling agree on a concrete document -/
+
+example : posDistinctB ["definitions", "A"] ["definitions", "A", "properties", "p"] = true := by decide
+
+/-- `A = {$ref, properties: {p: {$ref}}}`: both `$ref`s updated, in either order, give the same document, and
+    the sibling survives the outer update -/
+def sibDoc : J := .obj [("definitions", .obj [("A", .obj [("$ref", .str "o#/definitions/X"),
+  ("properties", .obj [("p", .obj [("$ref", .str "o#/definitions/X")])])])])]
+
+def sibDocAfter : J := .obj [("definitions", .obj [("A", .obj [("$ref", .str "#/definitions/x"),
+  ("properties", .obj [("p", .obj [("$ref", .str "#/definitions/x")])])])])]
+
+example :
+    (updR "#/definitions/x" .swagger sibDoc ["definitions", "A"]).bind
+        (fun d => updR "#/definitions/x" .swagger d ["definitions", "A", "properties", "p"]) = some sibDocAfter ∧
+    (updR "#/definitions/x" .swagger sibDoc ["definitions", "A", "properties", "p"]).bind
+        (fun d => updR "#/definitions/x" .swagger d ["definitions", "A"]) = some sibDocAfter :=
+  ⟨rfl, rfl⟩
 
 end C07
